@@ -800,6 +800,11 @@ func (d *Driver) judgeC11() {
 						t = x
 					}
 				}
+				if t != nil && t.Fall != nil && n.DoneStep > 0 && t.SEnd <= n.DoneStep {
+					// the claim fell between the injection of the notification and the end of its handler
+					// (another cause at the very instant): the handler may have found no leader
+					t = nil
+				}
 				if t == nil {
 					continue // did not lead when the notification arrived
 				}
